@@ -127,6 +127,8 @@ def run(check, ctx):
     # CCM: four configurations of declared lengths
     for ml, al, spec, lab in ((100, 10, a1(), "msg_len+assoc_len declared"),
                               (100, None, a1(), "msg_len declared"),
+                              (0, None, a1(), "msg_len = 0 declared"),
+                              (0, 0, a1(), "msg_len = 0 and assoc_len = 0 declared"),
                               (None, 10, a2(), "assoc_len declared"),
                               (None, None, a2(), "nothing declared")):
         cfg = {"_msg_len": ml, "_assoc_len": al}
@@ -167,6 +169,10 @@ def run(check, ctx):
     # OCB: an empty chunk is not the final call (every permitted sequence yields the one-shot result)
     from . import C09 as _c09
     _c09.ocb_transcrypt_seg(check, ctx.repo, rule="T-seg")
+    # every permitted sequence yields the one-shot result: the AEAD constructions in pieces, in place (output= aliasing
+    # the input) and with declared lengths, as whole compositions over stand-in primitives
+    from . import aead_compose
+    aead_compose.compose_tables(check, ctx, modes=("gcm", "ccm", "eax", "chachapoly"), rule="T-seg")
     # KangarooTwelve's own (Python) life cycle, single-chunk and tree branches
     from .c09_extra import k12_tree_rows
     k12_tree_rows(check, ctx.repo, rule="T-seg", lifecycle_rule="T")
